@@ -421,13 +421,13 @@ pub fn fp_pos(p: &Pos) -> u64 {
     fp_bytes(&v)
 }
 
-/// The engine's quiescence search does not poll the stop flag, and on boards with many queens and
-/// rooks its capture chains run for minutes. Search-driving checks (which run searches they cannot
-/// kill) keep to boards with at most the six heavy pieces a real game starts with.
+/// Depth-limited searches of boards with many queens and rooks are extremely slow (the capture search
+/// explodes), which would turn fixed-work tiers into time-outs. Search-driving checks keep to boards with
+/// at most the six heavy pieces a real game starts with; C07's latency cases and C15 cover the others.
 pub fn search_friendly(p: &Pos) -> bool {
     p.b.iter().filter(|c| b"QRqr".contains(c)).count() <= 6 && p.pseudo().len() <= 250
 }
-pub const SKIP_HEAVY: &str = "more than 6 heavy pieces or 250 pseudo-legal moves (unbounded quiescence; see DESIGN)";
+pub const SKIP_HEAVY: &str = "more than 6 heavy pieces or 250 pseudo-legal moves (searches too slow for a fixed-work tier; see DESIGN 8.4)";
 
 /// Four-ply cycles a, b, a-back, b-back of quiet non-pawn moves that return to `p`
 pub fn shuffle_cycles(p: &Pos) -> Vec<[RMove; 4]> {
